@@ -613,7 +613,14 @@ impl ModuleManager {
         // Add own rules
         visible.extend(module.get_rules().iter().cloned());
 
-        // Add imported rules
+        // Add imported rules. A source module also exports rules it re-exports without owning
+        // them, so the candidates are the rules of every module, not only the source's own
+        // (this keeps the listing in agreement with `is_rule_visible`).
+        let candidates: HashSet<&String> = self
+            .modules
+            .values()
+            .flat_map(|m| m.get_rules().iter())
+            .collect();
         for import in module.get_imports() {
             if !matches!(
                 import.import_type,
@@ -624,9 +631,9 @@ impl ModuleManager {
 
             let from_module = self.get_module(&import.from_module)?;
 
-            for rule in from_module.get_rules() {
+            for rule in &candidates {
                 if from_module.exports_rule(rule) && pattern_matches(&import.pattern, rule) {
-                    visible.insert(rule.clone());
+                    visible.insert((*rule).clone());
                 }
             }
         }
